@@ -51,7 +51,8 @@ D2 == Containers(E2, H2, {Leaf("i1"), <<"list", <<Leaf("sa")>>>>})           \* 
 \* depth 3, targeted: unordered containers whose elements / keys are tuples MIXING frozensets, nested tuples and leaves
 \* (only partially ordered: sorting them is not canonical, the order-insensitive fallback must be taken)
 B3 == {Leaf("i1"), Leaf("sa"), <<"fset", {Leaf("i1")}>>, <<"fset", {Leaf("sa")}>>, <<"fset", {Leaf("i1"), Leaf("sa")}>>,
-       <<"tuple", <<Leaf("i1")>>>>, <<"tuple", <<Leaf("sa")>>>>}
+       <<"tuple", <<Leaf("i1")>>>>, <<"tuple", <<Leaf("sa")>>>>,
+       <<"tuple", <<<<"fset", {Leaf("i1")}>>>>>>, <<"tuple", <<<<"fset", {Leaf("sa")}>>>>>>}      \* a frozenset one tuple level further down
 K3 == {<<"tuple", s>> : s \in {q \in Seqs(B3) : Len(q) >= 1}}
 P3 == {{a} : a \in K3} \cup {{a, b} : a, b \in K3}        \* (SUBSET K3 is far too large to filter)
 S3 == {T \in P3 : Distinct(T)}
